@@ -167,7 +167,7 @@ func (securityAssociation *SecurityAssociation) Unmarshal(b []byte) error {
 		spiSize := int(b[6])
 		if spiSize > 0 {
 			// bounds checking
-			if len(b) < 8+spiSize {
+			if int(proposalLength) < 8+spiSize {
 				return errors.Errorf("Proposal: No sufficient bytes for unmarshalling SPI of proposal")
 			}
 			proposal.SPI = append(proposal.SPI, b[8:8+spiSize]...)
